@@ -718,6 +718,25 @@ def workload(ctx, repo):
                 case = make_dateonly(rng, name)
                 ctx.case = case
                 run_case(ctx, repo, case)
+    # ... and the same forms given to a basic-only parser: every form the
+    # library lists as basic is accepted, the extended-only ones refused
+    ctx.target("dateonly/basic-only-accepts", "dateonly/basic-only-refuses")
+    for name, ext, _ in REDUCED:
+        for r in range(max(2, reps)):
+            i += 1
+            if not ctx.mine(i):
+                continue
+            case = make_dateonly(rng, name, basic=True)
+            if ext:
+                case["expect"] = {
+                    "kind": "reject", "tag": "dateonly/basic-only-refuses",
+                    "cfg": case["cfg"],
+                    "why": "extended-only form given to a basic-only parser"}
+            else:
+                ctx.cls("dateonly/basic-only-accepts")
+            ctx.case = case
+            ctx.ev("cases.dateonly-basic-only")
+            run_case(ctx, repo, case)
     # 3. value sweeps: every month/day/doy/week/weekday/h/m/s/offset
     if ctx.worker == 0:
         sweeps = []
